@@ -103,7 +103,24 @@ impl<'a> VisitorContext<'a> {
         name: &str,
         default: Option<fn() -> T>,
     ) -> ServerResult<T> {
-        let value = field.get_argument(name).cloned();
+        let mut value = field.get_argument(name).cloned();
+
+        // An argument bound to a variable that has no value (not supplied and no
+        // default) is an argument that was not provided.
+        if let Some(Positioned {
+            node: Value::Variable(variable_name),
+            ..
+        }) = &value
+            && let Some(def) = variable_definitions
+                .iter()
+                .find(|def| def.node.name.node == *variable_name)
+            && def.node.default_value.is_none()
+            && self
+                .variables
+                .is_some_and(|variables| !variables.contains_key(&def.node.name.node))
+        {
+            value = None;
+        }
 
         if value.is_none()
             && let Some(default) = default
